@@ -23,8 +23,9 @@ func init() {
 		Level: "model_checking",
 		Rule: "String, Dump, WellFormed and WriteTo(discard) are called, under a step budget on the statement-instrumented build ('never block' is decided by the budget, not by a clock), on: (1) the zero value and the constructor value of every exported packet type, TopicFilter, UserProp(erties), Malformed; (2) every state visited by C12's breadth-first search over setter histories (same bounds); (3) every packet accepted by the decoder from C04's raw input families F1-F5 (malformed-but-accepted packets); " +
 			"(4) exhaustively all 256 values of every rendered byte: first byte (256 headers), CONNECT flags and CONNACK flags (frames carrying each flag byte with a body consistent with it), the reason code in each of the 9 packet types that render one plus SUBACK/UNSUBACK lists, subscription options, ReasonCode(b).String(), TopicFilter.String(). " +
+			"(5) never block: for every type, Dump of a packet is held inside a writer that stalls in Write while Dump and String of another packet run: they must return (a rendering that serialises on a package-level lock does not). Every string setter of every type called with every special and mined content, then rendered. " +
 			"Dump is also given writers that refuse everything with each kind of error (io.ErrShortWrite, io.EOF, ... themselves, a temporary net error, an unhashable error value) and one that takes a byte per call. Oracle: no panic, budget not exceeded, String() non-empty. distinct_nontrivial = distinct rendered packet values (hash of state path / input bytes).",
-		Assumptions:  []string{"a writer that blocks is outside the property; Dump is given an in-memory writer"},
+		Assumptions:  []string{"a writer that blocks is outside the property for the Dump that writes to it; other renderings must not wait for it"},
 		SingleThread: true,
 		Run:          runC19,
 		Replay:       replayC19,
